@@ -8,10 +8,11 @@
    by the verify messages [ms] — ANY contents in ANY order (a message is a sender id, a claimed data
    hash, and two arbitrary points or nil); [party_final bind e ms] is the case [fut = nil];
    [bind = true] is the handler with the data-hash comparison (the code as repaired). *)
-From Coq Require Import ZArith.
-From mathcomp Require Import all_ssreflect all_algebra.
-From V.C13 Require Import Model Proofs.
-From V.C15 Require Import Model Proofs Refute.
+From Coq Require Import ZArith Znumtheory.
+From mathcomp Require Import all_ssreflect all_algebra ssrZ.
+From V.Base Require Import PrimeBn256Order PrimeBridge.
+From V.C13 Require Import Model Proofs Bridge.
+From V.C15 Require Import Model Proofs Refute Bridge Proc.
 Import GRing.Theory.
 Local Open Scope ring_scope.
 Delimit Scope Z_scope with ZZ.
@@ -99,6 +100,156 @@ exact: (@one_faulty_cannot_block F M H sel e k dealers dk k0 thr mem gsk so ne n
 Qed.
 Print Assumptions C15_one_faulty_cannot_block.
 
+(* ======== from message arrival (Processor level) ========
+   Events: verify messages naming any block hash, cast messages (accepted by round0's checks or not),
+   the 10 s timer, eviction of the block's entry from the future-message cache.  Verify messages are
+   routed by the block hash they name; those for this block that arrive before the accepted cast
+   message are kept and handed to the party in an arbitrary order [drain]; an ended party is retired.
+   [pre_of]/[post_of]: the verify messages naming this block's hash before / after the first accepted
+   cast message. *)
+Definition prun (F : fieldType) (M : eqType) (H : M -> F) sel drain :=
+  @proc_run F M (fops F) eq_op eq_op (fun x => x == 0) (fun x => x == 0) eq_op H sel drain true.
+Arguments prun {F M} H sel drain.
+
+(* Any interleaving without timeout and eviction that contains an accepted cast message ends in the
+   state of a run of the signing round (as in the theorems above) on those messages. *)
+Theorem C15_arrival_reduces_to_round :
+  forall (F : fieldType) (M : eqType) (H : M -> F) (sel : seq (F * F) -> seq nat)
+         (drain : seq (@msg F M) -> seq (@msg F M)) (e : @env F M) (evs : seq (@event F M)),
+  all (@quiet_ev F M) evs -> has (@is_cast F M) evs ->
+  pr_party (prun H sel drain e evs) =
+  Some (pfinal_from F M H sel true e [::] (drain (pre_of e evs) ++ post_of e evs)).
+Proof. move=> F M H sel drain e evs; exact: proc_reduce. Qed.
+Print Assumptions C15_arrival_reduces_to_round.
+
+(* ... hence: k members' valid messages naming the block, arriving before or after the cast message, in
+   any interleaving with anything else, finalise the block - as long as no timeout fires and the
+   block's entry is not evicted from the future-message cache. *)
+Theorem C15_arrival_one_faulty_cannot_block :
+  forall (F : fieldType) (M : eqType) (H : M -> F) (sel : seq (F * F) -> seq nat)
+         (drain : seq (@msg F M) -> seq (@msg F M)) (e : @env F M) (k : nat) (dealers : seq (seq F)),
+  all (fun cs => size cs <= k)%N dealers -> (0 < k)%N -> e_thr e = k ->
+  (forall id sk, lookup eq_op id (e_members e) = Some sk -> sk = member_key (fops F) dealers id) ->
+  e_gsk e = group_secret (fops F) dealers -> sel_any k sel ->
+  e_existed e = false -> [/\ e_gsk e != 0, H (e_bh e) != 0 & H (e_pr e) != 0] ->
+  (forall (p : @msg F M -> bool) l, count p (drain l) = count p l) ->
+  forall evs : seq (@event F M),
+  all (@quiet_ev F M) evs -> has (@is_cast F M) evs ->
+  (k <= size (undup [seq m_sender m | m <- pre_of e evs ++ post_of e evs & honestb H e m]))%N ->
+  exists2 pf, pr_party (prun H sel drain e evs) = Some pf &
+    p_phase pf = Finished /\ st_hdr (p_st pf) = Some (e_gsk e * H (e_bh e), e_gsk e * H (e_pr e)).
+Proof.
+move=> F M H sel drain e k dealers dk k0 thr mem gsk so ne nz dp evs q hc kh.
+exact: (@proc_live F M H sel drain e k dealers dk k0 thr mem gsk so ne nz dp evs q hc kh).
+Qed.
+Print Assumptions C15_arrival_one_faulty_cannot_block.
+
+(* The two excluded events do block a valid block (Z mod 101, group 1,2,3, threshold 2): honest shares
+   of 2 and 3 kept before the cast message finalise the block; with the entry evicted in between the
+   party starts empty and stays collecting (confirmed on the node: 50 verify messages naming other
+   hashes evict it; known finding C15/future-store:evicted-by-flood); the timer closes a collecting
+   party. *)
+Theorem C15_arrival_store_eviction_refuted :
+  phase_of (zproc [:: EvVerify 0%N honest2; EvVerify 0%N honest3; EvCast true]) = Some Finished /\
+  phase_of (zproc [:: EvVerify 0%N honest2; EvVerify 0%N honest3; EvEvict; EvCast true]) = Some Collecting /\
+  count_of (zproc [:: EvVerify 0%N honest2; EvVerify 0%N honest3; EvEvict; EvCast true]) = Some 0%N /\
+  phase_of (zproc [:: EvCast true; EvVerify 0%N honest2; EvTimeout; EvVerify 0%N honest3]) = Some Closed.
+Proof. exact: store_evicted_run. Qed.
+Print Assumptions C15_arrival_store_eviction_refuted.
+
+(* ======== the same theorems about the executable model the correspondence run evaluates ========
+   [zmodel_final curve_order hs true e fut ms] is exactly what Harness.check computes for a run of the
+   node: arithmetic on Z modulo r = bn256.Order (proved prime: V.Base.PrimeBn256Order, no primality
+   hypothesis here), member ids compared as integers, [hs] the table of logarithms of the hash
+   points, recovery from all entries in arrival order.  Hypotheses on the node's member table: the ids
+   are pairwise distinct and non-zero modulo r (they are Lagrange abscissae).  Equalities of points
+   are equalities modulo r. *)
+Notation r := curve_order.
+
+Lemma order_prime : Znumtheory.prime r.
+Proof. exact: bn256_order_prime. Qed.
+
+Definition table_ok (e : @env Z nat) : Prop :=
+  uniq (residues r (map fst (e_members e))) /\
+  all (fun i => negb (i mod r =? 0)%ZZ) (map fst (e_members e)).
+
+Lemma table_okP e : table_ok e ->
+  uniq (map (phi r) (map fst (e_members e))) /\ all (fun i => phi r i != 0) (map fst (e_members e)).
+Proof.
+case=> u nz; split; first exact: (uniq_phi order_prime).
+by apply: sub_all nz => i; rewrite (phi_eq0 order_prime).
+Qed.
+
+Theorem C15Z_set_valid :
+  forall (hs : seq Z) (e : @env Z nat) (fut ms : seq (@msg Z nat)), table_ok e ->
+  let st := p_st (zmodel_final r hs true e fut ms) in
+  [/\ uniq (map fst (g_map (st_g st))), map fst (g_map (st_g st)) = map fst (g_map (st_r st)),
+      forall id s, (id, s) \in g_map (st_g st) ->
+        exists2 sk, lookup Z.eqb id (e_members e) = Some sk &
+                    (s mod r = (sk * zH hs (e_bh e)) mod r)%ZZ /\ (s mod r <> 0)%ZZ &
+      forall id s, (id, s) \in g_map (st_r st) ->
+        exists2 sk, lookup Z.eqb id (e_members e) = Some sk &
+                    (s mod r = (sk * zH hs (e_pr e)) mod r)%ZZ /\ (s mod r <> 0)%ZZ].
+Proof.
+move=> hs e fut ms /table_okP [tab nz]; rewrite zmodel_finalE.
+exact: (@set_valid_Z r order_prime hs e tab nz fut ms).
+Qed.
+Print Assumptions C15Z_set_valid.
+
+Theorem C15Z_recovered_verifies :
+  forall (hs : seq Z) (e : @env Z nat) (k : nat) (dealers : seq (seq Z)), table_ok e ->
+  all (fun cs => size cs <= k)%N dealers -> (0 < k)%N -> e_thr e = k ->
+  (forall id sk, lookup Z.eqb id (e_members e) = Some sk ->
+     (sk mod r = member_key (zq r) dealers id mod r)%ZZ) ->
+  (e_gsk e mod r = group_secret (zq r) dealers mod r)%ZZ ->
+  forall fut ms : seq (@msg Z nat),
+  let st := p_st (zmodel_final r hs true e fut ms) in
+  [/\ forall s, g_sig (st_g st) = Some s -> (s mod r = (e_gsk e * zH hs (e_bh e)) mod r)%ZZ,
+      forall s, g_sig (st_r st) = Some s -> (s mod r = (e_gsk e * zH hs (e_pr e)) mod r)%ZZ,
+      forall a b, st_hdr st = Some (a, b) -> st_can st ->
+        (a mod r = (e_gsk e * zH hs (e_bh e)) mod r)%ZZ /\ (b mod r = (e_gsk e * zH hs (e_pr e)) mod r)%ZZ &
+      g_sig (st_g st) = None -> (size (g_map (st_g st)) < k)%N].
+Proof.
+move=> hs e k dealers /table_okP [tab nz] dk k0 thr mem gsk fut ms; rewrite zmodel_finalE.
+exact: (@recovered_verifies_Z r order_prime hs e tab nz k dealers dk k0 thr mem gsk fut ms).
+Qed.
+Print Assumptions C15Z_recovered_verifies.
+
+Theorem C15Z_no_error_end :
+  forall (hs : seq Z) (e : @env Z nat) (k : nat) (dealers : seq (seq Z)), table_ok e ->
+  all (fun cs => size cs <= k)%N dealers -> (0 < k)%N -> e_thr e = k ->
+  (forall id sk, lookup Z.eqb id (e_members e) = Some sk ->
+     (sk mod r = member_key (zq r) dealers id mod r)%ZZ) ->
+  (e_gsk e mod r = group_secret (zq r) dealers mod r)%ZZ ->
+  e_existed e = false ->
+  [/\ (e_gsk e mod r <> 0)%ZZ, (zH hs (e_bh e) mod r <> 0)%ZZ & (zH hs (e_pr e) mod r <> 0)%ZZ] ->
+  forall fut ms : seq (@msg Z nat), p_phase (zmodel_final r hs true e fut ms) <> Closed.
+Proof.
+move=> hs e k dealers /table_okP [tab nz] dk k0 thr mem gsk ne nzs fut ms; rewrite zmodel_finalE.
+exact: (@no_error_end_Z r order_prime hs e tab nz k dealers dk k0 thr mem gsk ne nzs fut ms).
+Qed.
+Print Assumptions C15Z_no_error_end.
+
+Theorem C15Z_one_faulty_cannot_block :
+  forall (hs : seq Z) (e : @env Z nat) (k : nat) (dealers : seq (seq Z)), table_ok e ->
+  all (fun cs => size cs <= k)%N dealers -> (0 < k)%N -> e_thr e = k ->
+  (forall id sk, lookup Z.eqb id (e_members e) = Some sk ->
+     (sk mod r = member_key (zq r) dealers id mod r)%ZZ) ->
+  (e_gsk e mod r = group_secret (zq r) dealers mod r)%ZZ ->
+  e_existed e = false ->
+  [/\ (e_gsk e mod r <> 0)%ZZ, (zH hs (e_bh e) mod r <> 0)%ZZ & (zH hs (e_pr e) mod r <> 0)%ZZ] ->
+  forall fut ms : seq (@msg Z nat),
+  (k <= size (undup [seq m_sender m | m <- fut ++ ms & zhonestb r hs e m]))%N ->
+  p_phase (zmodel_final r hs true e fut ms) = Finished /\
+  exists a b, [/\ st_hdr (p_st (zmodel_final r hs true e fut ms)) = Some (a, b),
+                  (a mod r = (e_gsk e * zH hs (e_bh e)) mod r)%ZZ &
+                  (b mod r = (e_gsk e * zH hs (e_pr e)) mod r)%ZZ].
+Proof.
+move=> hs e k dealers /table_okP [tab nz] dk k0 thr mem gsk ne nzs fut ms kh; rewrite zmodel_finalE.
+exact: (@one_faulty_cannot_block_Z r order_prime hs e tab nz k dealers dk k0 thr mem gsk ne nzs fut ms kh).
+Qed.
+Print Assumptions C15Z_one_faulty_cannot_block.
+
 (* The handler as found (no comparison) violates the property: over Z mod 101, group of 3 with
    threshold 2, member 1 sends its well-signed share over another hash (claimed as such), members 2 and
    3 are honest: the foreign share is admitted, the recovered value 88 is not the group signature 35,
@@ -180,3 +331,20 @@ Example C15_example_repaired_run :
   p_phase (zfinal true) = Finished /\
   snd (zparty_run rq rhs true renv rmsgs) = [:: (OHashMismatch, TNone); (OAdded, TNone); (ORecovered, TDone)].
 Proof. exact: repaired_run. Qed.
+
+(* Non-vacuity of the Z-level hypotheses, over the real group order: two dealers 11+22x and 44+55x,
+   threshold 2, members 101, 202, 303 with keys 55+77*id, group secret 55; the valid messages of 101
+   and 202 finalise the block in the executable model. *)
+Example C15Z_example :
+  let hs := [:: 7; 9]%ZZ in
+  let dealers := [:: [:: 11; 22]; [:: 44; 55]]%ZZ in
+  let e := @Env Z nat 0%N 1%N [:: (101, 7832); (202, 15609); (303, 23386)]%ZZ 2 false 55%ZZ in
+  let ms := [:: @Msg Z nat 101%ZZ 0%N (PVal (7832 * 7)%ZZ) (PVal (7832 * 9)%ZZ);
+                @Msg Z nat 202%ZZ 0%N (PVal (15609 * 7)%ZZ) (PVal (15609 * 9)%ZZ)] in
+  [/\ uniq (residues r (map fst (e_members e))),
+      all (fun i => negb (i mod r =? 0)%ZZ) (map fst (e_members e)),
+      all (fun x => (x.2 mod r =? member_key (zq r) dealers x.1 mod r)%ZZ) (e_members e),
+      (e_gsk e mod r =? group_secret (zq r) dealers mod r)%ZZ &
+      (2 <= size (undup [seq m_sender m | m <- [::] ++ ms & zhonestb r hs e m]))%N] /\
+  p_phase (zmodel_final r hs true e [::] ms) = Finished.
+Proof. by vm_compute. Qed.
